@@ -26,9 +26,38 @@ Decided (shape of the code, all inputs):
          reachable from the renderers formats a template made of string constants only (literals, named constants,
          their concatenations / joins); endpoint data -- docstrings, labels, values -- is passed as an argument and
          never concatenated or interpolated into the template (a brace / percent sign in it would raise => 500).
+  (vt/props/c17_more.py:)
+  R17.g  kinds of value in the encoder: the object handed to default() is an instance, a plain class or a class with a
+         metaclass; a conversion method fetched from it (obj.to_dict(), getattr(obj, name)(), a local bound to such a
+         fetch) is called only where the type tests on the way exclude *both* kinds of class (``isinstance(obj, type)``
+         / inspect.isclass do, ``type(obj) is type`` excludes only the plain one; a bound-method test on the fetched
+         callable is accepted too);
+  R17.h  renderers are shared by all requests: nothing on the render paths stores what it learns from one request (a
+         value or a decision derived from the context / request / route, or an accumulation) in the renderer, its class,
+         a module-level object or a mutable default -- under whatever alias -- and reads it back on the render paths;
+         idempotent request-independent writes (a cache of configuration, a lazily filled one included when every read
+         comes after the fill) and write-only statistics are fine;
+  R17.i  the render paths answer 200: no Response is built with / given another status; every entry point returns a
+         response on every path; the only raise outside the encoder is the rejection of a format parameter that is
+         *present* and not in the format table;
+  R17.k  provenance and precedence of the negotiated mime: the value the dispatch tests derives from the format table
+         looked up with this request's format parameter, else from best_match of this request's Accept header over
+         exactly the served mimes, else it is the default mime -- nothing else flows into it (path conditions of each
+         source checked);
+  R17.l  every JSON body -- streaming, non-streaming, inside JSONP -- is self.json_encoder (the encoder R17.d checks)
+         applied to the endpoint result itself; a JSONP body is <this request's callback>( JSON ) and is built only when
+         the request names a callback; the dispatch of the basic renderer hands the endpoint result itself on; a generator
+         of the tree the body is passed through is read as a re-chunker over a finite buffer state (empty / holds
+         unemitted tokens / emitted, not cleared): no token overtakes buffered ones, none is dropped or repeated (another
+         transformation of the JSON stream is an analysis error, another producer a violation);
+  R17.m  optional attributes of a FunctionBuilder -- None unless the callable supplies them; read from the pinned boltons
+         source: default factory ``lambda: None`` (module, varargs, varkw, defaults) -- are joined / concatenated /
+         dereferenced on the render paths (the heading of the HTML table) only behind a presence test.
 Nothing is decided by running clastic code: paths are enumerated symbolically over the abstract results
-{non-empty str, non-empty bytes, '', b'', Sized non-text, unsized}.
-Declined: JSON validity / round trip, HTML table shapes (third-party Table), streaming -- values.
+{non-empty str, non-empty bytes, '', b'', Sized non-text, unsized}; kinds of encoded objects over {instance, plain class,
+class with a metaclass}.
+Declined: JSON validity / round trip of the stdlib encoder's output, HTML table shapes (third-party Table), what
+request.accept_mimetypes.best_match answers for a given header -- values.
 """
 import ast
 import builtins
@@ -1298,8 +1327,13 @@ def run(rep):
     errors = repo.mod('clastic.errors')
     rep.decide('R17.a names resolve; R17.b no type-confused classification tests; R17.c label follows test / '
                'classification order, empty text is text; R17.d dev-mode fallback; R17.e format tables agree; '
-               'R17.f format templates are constants')
-    rep.decline('JSON validity and round trip, HTML table shapes, streaming (values of third-party serialisers)')
+               'R17.f format templates are constants; R17.g conversion methods are called on instances only (kinds of value); '
+               'R17.h no per-request state on the shared renderers; R17.i 200 status, returns on every path, raises only for an '
+               'explicit unknown format; R17.k provenance / precedence of the negotiated mime; R17.l JSON bodies come from the '
+               'renderer\'s own encoder applied to the endpoint result, JSONP padding, re-chunkers keep the order; R17.m optional '
+               'FunctionBuilder attributes are used as text only behind a presence test')
+    rep.decline('JSON validity and round trip of the stdlib encoder\'s output, HTML table shapes (third-party Table), the answer of '
+                'best_match for a given Accept header (values of third-party code)')
     rep.assume('request.args / accept_mimetypes behave as in werkzeug 1.0.1')
 
     def g_names():
@@ -1832,16 +1866,52 @@ def run(rep):
 
     def g_labels():
         # JSON renderer labels
-        for q, want in (('JSONRender.__call__', 'application/json'), ('JSONPRender.__call__', 'application/javascript')):
-            f = simple.func(q)
+        for q, want in (('JSONRender.__call__', 'application/json'), ('JSONPRender.__call__', 'application/javascript'),
+                        ('TabularRender.context_to_response', 'text/html')):
+            f = (tabular if q.startswith('Tabular') else simple).func(q)
             calls = [c for c in walk_body(f.node) if _is_response(simple, c)]
             if not calls:
                 raise AnalysisError('%s: the Response it constructs was not found' % q)
             mts = [_fold_const(repo, f, argn(c, 'mimetype', 3)) for c in calls]
             ok = all(m == want for m in mts)
             rep.check('R17.e', fkey(f, 'mimetype'), ok, '%s labels its body %s' % (q, want) if ok else
-                      '%s does not label its body %s (found %r)' % (q, want, mts), simple, f.node)
+                      '%s does not label its body %s (found %r)' % (q, want, mts), f.mod, f.node)
 
+
+    def render_roots():
+        return [simple.func('BasicRender.render_response'), simple.func('BasicRender._serialize_to_resp'),
+                simple.func('JSONRender.__call__'), simple.func('JSONPRender.__call__'),
+                simple.func('ClasticJSONEncoder.default'), tabular.func('TabularRender.context_to_response')]
+
+    def g_kinds():
+        import sys
+        from . import c17_more
+        c17_more.check_kinds(rep, repo, sys.modules[__name__])
+
+    def g_shared():
+        import sys
+        from . import c17_more
+        c17_more.check_shared(rep, repo, sys.modules[__name__], render_roots())
+
+    def g_total():
+        import sys
+        from . import c17_more
+        c17_more.check_total(rep, repo, sys.modules[__name__], render_roots())
+
+    def g_negotiation():
+        import sys
+        from . import c17_more
+        c17_more.check_negotiation(rep, repo, sys.modules[__name__])
+
+    def g_json_bodies():
+        import sys
+        from . import c17_more
+        c17_more.check_json_bodies(rep, repo, sys.modules[__name__])
+
+    def g_optional_labels():
+        import sys
+        from . import c17_more
+        c17_more.check_optional_labels(rep, repo, sys.modules[__name__], render_roots())
 
     def safely(fn):
         def group():
@@ -1858,7 +1928,7 @@ def run(rep):
                                     % (fn.__name__, type(e).__name__, e, tb.filename.rpartition('/')[2], tb.lineno))
         group.__name__ = fn.__name__
         return group
-    for g in (g_names, g_guess, g_render, g_serialize, g_encoder, g_labels, g_templates):
+    for g in (g_names, g_guess, g_render, g_serialize, g_encoder, g_labels, g_templates, g_kinds, g_shared, g_total, g_negotiation, g_json_bodies, g_optional_labels):
         rep.guard(safely(g))
     # floors are checked after all groups ran, so that one unrecognised construct does not hide the others
     for rule_, n_ in (('R17.c', 9),):
